@@ -141,6 +141,16 @@ theorem spurious_counters {s s' : State} {t : Tid} (h : spurious s t = some s') 
     cases hpc : th.pc <;> simp [hpc] at h
     subst h; exact ⟨rfl, rfl, rfl⟩
 
+theorem tok_holder {th : Thread} (h : TOK th = true) :
+    (th.pc = .lock .runlock → th.held = .r) ∧ (th.pc = .lock .wunlock → th.held = .w) ∧
+    (∀ op, op.isAcq = true → th.pc = .atUnlock op true → th.held = op.heldBy) ∧
+    (∀ op, op.isAcq = true → th.pc = .lock op → th.held = .none) := by
+  refine ⟨?_, ?_, ?_, ?_⟩
+  · intro hpc; simp [TOK, hpc, Op.isAcq] at h; exact h.1
+  · intro hpc; simp [TOK, hpc, Op.isAcq] at h; exact h.1
+  · intro op ha hpc; simp [TOK, hpc, ha] at h; exact h.2
+  · intro op ha hpc; simp [TOK, hpc, ha] at h; exact h.1
+
 /-! ### posix wrapper over the trusted pthread rwlock -/
 namespace Posix
 
